@@ -1,10 +1,10 @@
 ---------------------------- MODULE ProblemTable ----------------------------
 EXTENDS VOProblem
-CONSTANTS Part, Designs, Q, Draws, Chols, Cols
+CONSTANTS Part, Designs, Q, QOut, Draws, Chols, Cols
 VARIABLES cfg, ans
 Init ==
   \/ /\ Part = "nearest"
-     /\ cfg \in [X : Designs, q : (0..Q) \X (0..Q)]
+     /\ cfg \in [X : Designs, q : ((0-QOut)..(Q+QOut)) \X ((0-QOut)..(Q+QOut))]   \* queries also OUTSIDE the design box
      /\ ans = Nearest(cfg.X, cfg.q)
   \/ /\ Part = "noise"
      /\ cfg \in [z : Draws \X Draws, L : Chols]
